@@ -24,9 +24,10 @@ static const char* RULES =
     "rule ent { condition: math.entropy(0, filesize) > 2.0 }\n"
     "rule md5len { condition: hash.md5(0, filesize) != \"\" and tests.constants.one == 1 }\n"
     "rule fs { condition: filesize > 12 }\n"
+    "rule many { strings: $q = \"q\" condition: #q > 2 }\n"
     "rule md5v { condition: console.log(\"md5=\", hash.md5(0, filesize)) and console.log(\"sha=\", hash.sha1(1, 4)) }\n";
 
-static const char* BUFS[4] = {"xx abcd ab abbbcd", "abababab-no-d", "abcdabcdabcd abcd", "zz"};
+static const char* BUFS[6] = {"xx abcd ab abbbcd", "abababab-no-d", "abcdabcdabcd abcd", "zz", "qqqqqqqqqqqq", "xx q q q zz"};   /* 4: exceeds the per-string match limit of the scaled build (8) */
 static const char* EXTS[4] = {"v1", "w", "v2", "v1"};
 
 typedef struct { OB trace; int rc; int nmsg; int nrule; int abort_at; int error_at; } TCTX;   /* abort_at / error_at: index of the RULE message answered with abort / error */
@@ -120,6 +121,7 @@ static void setup_scenario(const char* name) {
   for (int t = 0; t < YV_MAXT; t++) bufsel[t] = t % 4;
   if (!strcmp(name, "two")) { }
   else if (!strcmp(name, "same-size")) { bufsel[1] = 2; }
+  else if (!strcmp(name, "tmm")) { bufsel[0] = 4; bufsel[1] = 5; }   /* thread 0 hits the match limit of $q (answers CONTINUE) while thread 1 needs every match of $q */
   else if (!strcmp(name, "three")) nthreads = 3;
   else if (!strcmp(name, "abort")) { tc[1].abort_at = solo[1].abort_at = 2; }
   else if (!strcmp(name, "error")) { tc[0].error_at = solo[0].error_at = 1; }
